@@ -24,7 +24,7 @@
 From Coq Require Import String ZArith NArith List Bool Lia.
 From Coq.Strings Require Import Byte.
 Import ListNotations.
-Require Import MS.Base.GoInt MS.Base.Res MS.Base.Hex MS.Base.Bytes MS.Generated.Src_io.
+Require Import MS.Base.GoInt MS.Base.Res MS.Base.Hex MS.Base.Bytes MS.Generated.Src_io MS.Generated.Src_wire.
 
 Definition field := list byte.
 Definition row := list field.
@@ -158,13 +158,17 @@ Section WithFloat.
   Definition conv_cols (c : cfg) (rows : list row) : option (list (list (list byte))) :=
     mapM (fun p => mapM (cell_of (fst p) (snd p)) rows) (used_cols c).
 
-  (** convertCSVtoCSM + the dereference that follows in CSVtoNumpyMulti *)
+  (** io.NewNumpyDataset refuses a column whose element type has no type string in typeMap (BOOL) *)
+  Definition has_typestr (t : Z) : bool := existsb (fun p => Z.eqb (fst p) t) type_map.
+  Definition wire_ok (c : cfg) : bool := forallb (fun p => has_typestr (fst p)) (used_cols c).
+
+  (** convertCSVtoCSM + the dereference that follows in CSVtoNumpyMulti + NewNumpyDataset *)
   Definition conv_chunk (c : cfg) (rows : list row) : Res ds :=
     match mapM (time_of c) rows with
     | None => Panic                       (* (nil, nil) returned; csm[tbk].Remove / NewNumpyDataset(nil) *)
     | Some ts => match conv_cols c rows with
                  | None => Rejected
-                 | Some cs => Ok (mkds ts cs)
+                 | Some cs => if wire_ok c then Ok (mkds ts cs) else Rejected
                  end
     end.
 
@@ -215,7 +219,14 @@ Section WithFloat.
   Definition times_ok (c : cfg) (evs : list ev) : bool :=
     forallb (fun r => match time_of c r with Some _ => true | None => false end) (rows_of evs).
 
-  (** every data row loaded with its parsed values: the whole file converted as ONE chunk *)
+  (** every row converted (timestamps and cells parsed), independent of any chunking *)
+  Definition conv_spec (c : cfg) (rows : list row) : option ds :=
+    match mapM (time_of c) rows, conv_cols c rows with
+    | Some ts, Some cs => Some (mkds ts cs)
+    | _, _ => None
+    end.
+
+  (** every data row of the file loaded with its parsed values *)
   Definition all_loaded (c : cfg) (evs : list ev) (d : ds) : Prop :=
-    no_err evs = true /\ conv_chunk c (rows_of evs) = Ok d.
+    no_err evs = true /\ conv_spec c (rows_of evs) = Some d.
 End WithFloat.
